@@ -211,6 +211,13 @@ def run(spec):
                              'diverging_runs': len(ties), 'searched_runs': len(results) + extra})
             violations.append(f'VIOLATION property={prop} replay={p} no-failing-input-found')
 
+    # 3b. optional second correspondence of the property (e.g. an assumption of the model checked on the real code)
+    extra_info = None
+    if spec.get('extra_check') and not replay:
+        extra_info = spec['extra_check'](dict(prop=prop, tier=tr, seed=base_seed, rng=rng))
+        for v in extra_info.get('violations', []):
+            violations.append(v)
+
     # 4. evidence
     dist = {}
     nontriv = set()
@@ -230,7 +237,7 @@ def run(spec):
         'samples': [' '.join(str(a) for a in r['argv']) for r in results[:3]],
         'traces_validated_against_impl': kinds['pass'], 'transitions': events,
         'disagreements_checked': kinds['tie'],
-        'explanation': f"theorems: {[t[0] for t in theorems]}; runs: {kinds}; accepted log events {events}; extra search runs {extra}; distribution {dist}; runs that hit the check's own wall-clock limit (no verdict): {kinds['stall']}",
+        'explanation': (extra_info.get('explanation', '') + '; ' if extra_info else '') + f"theorems: {[t[0] for t in theorems]}; runs: {kinds}; accepted log events {events}; extra search runs {extra}; distribution {dist}; runs that hit the check's own wall-clock limit (no verdict): {kinds['stall']}",
     }
     write_evidence(prop, tr, base_seed, cov, time.time() - t0, len(violations), assumptions=spec.get('assumptions', []))
     print(f"{prop}: theorems {discharged}/{obligations} audited; E2 runs {len(results)} (+{extra} extra): {kinds}; events {events}; {time.time()-t0:.1f}s")
